@@ -48,31 +48,77 @@ def _unset_guard(test, me):
     return None
 
 
+def _reads_attr(c, recv, attr):
+    """Does the cone read `recv.attr` (as an attribute or through getattr(recv, "attr", ...))?"""
+    if f"{recv}.{attr}" in c.attrs or any(a.startswith(f"{recv}.{attr}.") for a in c.attrs):
+        return True
+    for n in c.nodes:
+        if isinstance(n, ast.Call) and isinstance(n.func, ast.Name) and n.func.id in ("getattr", "hasattr") and len(n.args) >= 2 and isinstance(n.args[0], ast.Name) and n.args[0].id == recv and isinstance(n.args[1], ast.Constant) and n.args[1].value == attr:
+            return True
+    return False
+
+
 def find_memos(P, ci):
-    """{memo attr: (set of source attrs of self, defining function, statement)}"""
+    """{memo attr: (set of source attrs of the object, defining function, statement)}
+
+    A memo is an attribute C of an object of class `ci` that some function (a method, or a module-level function that
+    receives the object) stores under a test that reads C itself - "fill it when it is unset / out of date" - with a
+    value derived from other attributes of the same object.  Sources that the same test compares with the stored key
+    (`cache[0] is not obj.T`) are validated on every use and are not sources of staleness."""
     out = {}
-    meths = []
-    for c in P.mro(ci):
-        meths += list(c.methods.values()) + [f for pr in c.props.values() for f in pr.values()]
-    for m in meths:
-        me = m.self_name
-        if not me or m.qualname.endswith("__init__"):
+    cnames = {c.name for c in P.mro(ci)} | {c.name for c in P.subclasses(ci)} | {ci.name}
+    for m in P.all_funcs():
+        if m.qualname.endswith("__init__"):
             continue
         du = None
         for st, t, v, k in stores(m):
             if v is None or k != "assign":
                 continue
-            tgt = None
-            if isinstance(t, ast.Attribute) and isinstance(t.value, ast.Name) and t.value.id == me:
-                tgt = t.attr
-            elif isinstance(t, ast.Subscript) and isinstance(t.value, ast.Attribute) and isinstance(t.value.value, ast.Name) and t.value.value.id == me:
-                tgt = t.value.attr  # self._cache[key] = value
+            tgt = recv = None
+            if isinstance(t, ast.Attribute) and isinstance(t.value, ast.Name):
+                tgt, recv = t.attr, t.value
+            elif isinstance(t, ast.Subscript) and isinstance(t.value, ast.Attribute) and isinstance(t.value.value, ast.Name):
+                tgt, recv = t.value.attr, t.value.value  # obj._cache[key] = value
             if tgt is None:
                 continue
+            if recv.id == m.self_name:
+                if m.cls is None or m.cls.name not in cnames:
+                    continue
+            else:
+                rc = P.recv_class(recv, m)
+                if rc is None or rc.name not in cnames:
+                    continue
+            me = recv.id
             du = du or get_defuse(m, P)
             sst = du.stmt_of(st)
-            g = [(_unset_guard(test, me), pol) for test, pol in guards_of(sst)]
-            if not any(c_ == tgt and pol for c_, pol in g):
+            is_memo = False
+            validated = set()
+            for test, pol in guards_of(sst):
+                if _unset_guard(test, me) == tgt and pol:
+                    is_memo = True
+                    continue
+                # the test may read the memo through a local (`terms = getattr(obj, "_c", None); if terms is None or ...`)
+                p_ = sst
+                ifst = None
+                while p_ is not None:
+                    p_ = getattr(p_, "_parent", None)
+                    if isinstance(p_, (ast.If, ast.While)) and p_.test is test:
+                        ifst = p_
+                        break
+                if ifst is None:
+                    continue
+                tc = cone(du, test, ifst, interproc=False)
+                if _reads_attr(tc, me, tgt):
+                    # only "fill when unset / stale" shapes: the test compares the memo (or a part of it) with None or with
+                    # a current attribute of the object by identity / equality
+                    shapes = [x for x in ast.walk(test) if isinstance(x, ast.Compare) and isinstance(x.ops[0], (ast.Is, ast.IsNot, ast.Eq, ast.NotEq, ast.NotIn, ast.In))] + [x for x in ast.walk(test) if isinstance(x, ast.UnaryOp) and isinstance(x.op, ast.Not)]
+                    if shapes:
+                        is_memo = True
+                        for a in tc.attrs:
+                            parts = a.split(".")
+                            if parts[0] == me and len(parts) >= 2 and parts[1] != tgt:
+                                validated.add(parts[1])
+            if not is_memo:
                 continue
             c = cone(du, v, sst, interproc=True)
             srcs = set()
@@ -81,8 +127,7 @@ def find_memos(P, ci):
                 if parts[0] in (me, f"<{ci.name}>") or parts[0].startswith("<"):
                     if len(parts) >= 2 and parts[1] != tgt:
                         srcs.add(parts[1])
-            # sources reached through methods of self called in the defining expression
-            srcs = {s for s in srcs if s not in ("shape", "ndim")}
+            srcs = {s for s in srcs if s not in ("shape", "ndim")} - validated
             if srcs:
                 old = out.get(tgt)
                 out[tgt] = ((old[0] | srcs) if old else srcs, m, st)
